@@ -129,6 +129,16 @@ def run(chk, scratch):
                     (pipeline.PREFIX, ", ".join('"%s"' % os.path.basename(x) for x in parts["random3"]), ", ".join('"rep%d"' % i for i in range(3))))
         with open(os.path.join(d, "exp.list"), "w") as f:
             f.write("#%s\n%s\n" % (pipeline.PREFIX, "\n".join(parts["twins-apart"])))
+        # the same three files under ONE base name in three folders (rep_0/reads.bam, ...), given with --bam: files with equal default labels are
+        # still three files
+        same_ = []
+        for k_, src_ in enumerate(parts["random3"]):
+            os.makedirs(os.path.join(d, "rep_%d" % k_), exist_ok=True)
+            dst_ = os.path.join(d, "rep_%d" % k_, "reads.bam")
+            shutil.copy(src_, dst_)
+            shutil.copy(src_ + ".bai", dst_ + ".bai")
+            same_.append(dst_)
+        runs.append(("bam-random3-same-base-name", ["-g", gtf, "--complete_genedb", "--bam"] + same_, "home_samename", "alignments"))
         runs.append(("bam-random3-yaml", ["-g", gtf, "--complete_genedb", "--yaml", os.path.join(d, "exp.yaml")], "home_yaml", "alignments"))
         runs.append(("bam-twins-apart-list", ["-g", gtf, "--complete_genedb", "--bam_list", os.path.join(d, "exp.list")], "home_list", "alignments"))
         # the same comparison with the in-memory alignment storage (--high_memory): reference and split run both use it
